@@ -5,11 +5,13 @@
 //
 // strace semantics relied upon (strace 6.x, Linux):
 //
-//   - `-e inject=SET:signal=SIGKILL:when=N` delivers SIGKILL at the syscall-enter stop of the
-//     N-th syscall of SET made by a tracee; a fatal signal pending at that stop makes the
-//     kernel skip the syscall, so the process dies immediately BEFORE the syscall has any
-//     effect.  N is counted per tracee, i.e. per thread.
-//   - `-e inject=SET:error=E:when=N` skips the N-th syscall and makes it return -E; the log
+//   - `-e inject=NAME:signal=SIGKILL:when=N` delivers SIGKILL at the syscall-enter stop of the
+//     N-th call of syscall NAME made by a tracee; a fatal signal pending at that stop makes
+//     the kernel skip the syscall, so the process dies immediately BEFORE the syscall has
+//     any effect.  N is counted per tracee (i.e. per thread) AND PER SYSCALL NUMBER: with a
+//     set of several names every name has its own counter (verified with strace 6.1), so
+//     injection expressions here always name one syscall and use its per-name ordinal.
+//   - `-e inject=NAME:error=E:when=N` skips the N-th call and makes it return -E; the log
 //     line carries "(INJECTED)".
 //   - with -o and -f every line starts with the thread id; a syscall interrupted by another
 //     thread's output is split in "<unfinished ...>" / "<... name resumed>" halves.
@@ -45,8 +47,8 @@ type Syscall struct {
 	Errno    string // "ENOENT", ... when Ret is -1
 	Injected bool   // strace tampered with this call (error injection)
 	Finished bool   // a return value (other than "?") was logged
-	Ord      int    // 1-based ordinal among the logged syscalls of this thread (= strace's when= count if trace set == inject set)
-	NameOrd  int    // 1-based ordinal among this thread's calls of the same name
+	Ord      int    // 1-based ordinal among the logged syscalls of this thread
+	NameOrd  int    // 1-based ordinal among this thread's calls of the same name (= strace's when= count for inject=<name>)
 	Paths    []string
 }
 
@@ -121,14 +123,14 @@ func (t *Trace) Tampered() []Syscall {
 	return out
 }
 
-// HitAt returns the call with per-thread ordinal n that never returned (the victim of a
-// `signal=SIGKILL:when=n` injection).  When several threads reached their n-th call the
-// main thread's is preferred.
-func (t *Trace) HitAt(n int) (Syscall, bool) {
+// HitAt returns the n-th call of the named syscall on some thread that never returned:
+// the victim of `inject=<name>:signal=SIGKILL:when=n`.  When several threads qualify the
+// main thread's call is preferred.
+func (t *Trace) HitAt(name string, n int) (Syscall, bool) {
 	var found *Syscall
 	for i := range t.Calls {
 		c := &t.Calls[i]
-		if c.Ord == n && !c.Finished {
+		if c.Name == name && c.NameOrd == n && !c.Finished {
 			if found == nil || c.Tid == t.MainTid {
 				found = c
 			}
@@ -416,12 +418,10 @@ func Run(o Options) (Result, error) {
 	return res, nil
 }
 
-// KillAt is the inject expression that kills a thread on entry to its n-th syscall of set.
-func KillAt(set string, n int) string {
-	if set == "" {
-		set = MutatingSet
-	}
-	return fmt.Sprintf("%s:signal=SIGKILL:when=%d", set, n)
+// KillAt is the inject expression that kills a thread on entry to its n-th call of the
+// named syscall (n = Point.NameOrd / Syscall.NameOrd).
+func KillAt(name string, n int) string {
+	return fmt.Sprintf("%s:signal=SIGKILL:when=%d", name, n)
 }
 
 // FailAt is the inject expression that makes a thread's n-th call of the named syscall fail.
@@ -463,8 +463,8 @@ func Mark(path string) { syscall.Unlink(path) }
 
 // Point is one syscall of the operation's window in the uninjected (baseline) run.
 type Point struct {
-	Ord     int    // per-thread ordinal in the trace set: the N of KillAt
-	NameOrd int    // per-thread ordinal among calls of this name: the N of FailAt
+	Ord     int    // per-thread ordinal among all traced calls
+	NameOrd int    // per-thread ordinal among calls of this name: the N of KillAt and FailAt
 	Name    string // syscall name
 	Args    string
 	Index   int // 0-based position inside the window
